@@ -328,6 +328,7 @@ pub fn quick_runs(property: &str) -> u64 {
         "C03" => 8000,
         "C04" => 8000,
         "C05" => 3000,
+        "C13" => 1500,
         "C14" => 8000,
         _ => 4000,
     }
@@ -631,6 +632,7 @@ pub fn meta_for(property: &str) -> CheckMeta {
         "C06" => "plan = f(seed): family c06.forge injects only additive faults (bit-flipped / truncated / extended / spliced copies IN ADDITION to the genuine datagram, replays incl. from a third address, duplicates, unattributable and spoofed garbage) so every connection must survive and complete; family c06.mixed adds destructive faults (oracle 5 off); non-trivial = a non-genuine datagram was delivered to an endpoint and a stream completed; distinct = event-order hash",
         "C08" => "plan = f(seed): loss incl. ACK-only blackouts, reordering, duplication, delay; non-trivial = a fault fired and an ACK with gaps was sent or a packet was declared lost; distinct = event-order hash",
         "C11" => "plan = f(seed): certificate blobs up to 16 KB (server first flight far above 3x the client's Initial), handshake loss/duplication/delay, Retry on/off, up to 3 clients, and up to 40 unattributable datagrams (garbage, short header with unknown id, unknown version, Version Negotiation, version 0; sizes 1..1500) from a third address; non-trivial = certificate >= 3000 bytes and the handshake progressed, or an unattributable datagram was answered; distinct = event-order hash",
+        "C13" => "plan = f(seed): 1-3 long-lived connections (up to 260 s virtual) with keep-alive, connection-id lifetimes 60-120 s or none, handshake-id rotation on/off, active_connection_id_limit 2-8 on both sides, 0-5 NAT rebindings of each client at seeded times, loss/duplication/reordering up to 15 %; oracles over the recorded frames, datagram heads and endpoint events: consecutive sequence numbers, distinct ids and reset tokens (per connection and per endpoint), retire_prior_to <= seq, active ids <= peer limit at every issuance, RETIRE only of ids the peer issued and never inside a packet addressed to that id, datagrams for unretired ids of live connections neither handed to another connection nor treated as unroutable; non-trivial = NEW_CONNECTION_ID was sent and (an id was retired or a fault fired); distinct = event-order hash",
         "C14" => "REDUCED CLAIM (the pure decode table over all blocks is input enumeration): the rule catalogue (every numeric parameter at/around its bound, duplicates, removals, unknown and GREASE ids, server-only parameters in a client block, wrong/missing connection-id parameters, malformed encodings, truncations, reordering; ~120 rules per role) is enumerated completely by seed (fault_enumeration), alone and combined with an unknown parameter plus reordering, under random workloads and Retry on/off; expected verdict from an RFC 9000 7.3/7.4/18.2 table in /verif evaluated on the block as received; then the C03 credit monitor and a datagram-size monitor check that the declared values are the ones applied; non-trivial = the rewritten block reached the peer; distinct = event-order hash",
         "C12" => "plan = f(seed): send/finish/reset/stop_sending/close in all orders, hard application close, loss up to 30 %; non-trivial = RESET_STREAM/STOP_SENDING/CONNECTION_CLOSE was sent and a fault fired or a packet was lost; distinct = event-order hash",
         _ => "plan = f(seed); non-trivial = fault fired and progress; distinct = event-order hash",
